@@ -6,20 +6,21 @@ from contracts import C15 as c15
 from contracts import C04 as c04
 from contracts import C01 as c01
 from contracts import C11tri as t
+from contracts import C11rec as rec
 from contracts.core import VEC, MAT, IM, IV
 
 PRE = ('fax_l0', 'fmeth', 'stdspec', 'l1')
 BC = ('l0', 'l1_arith', 'l1_fun', 'ax_vec_from_refl', 'ax_f64_cloned')
 U = 'linalg::utils::'
 
-SPEC = t.SPEC + c01.SQ_UNIQUE + t.CHOL_SPEC + t.CHOL2_SPEC + t.LUS_SPEC + c01.LU_ONLY_SPEC + r'''
+SPEC = t.SPEC + c01.SQ_UNIQUE + t.CHOL_SPEC + t.CHOL2_SPEC + t.LUS_SPEC + c01.LU_ONLY_SPEC + rec.REC_SPEC + r'''
 /// the test that routes a system to the Cholesky solver
 pub open spec fn pd_test(m: Seq<f64>, n: int) -> bool { sym_eps(m, n) && diag_pos(m, n) }
 /// x solves the system with matrix a and right-hand side b by one of the two routes (property C01: the route is
 /// Cholesky exactly when the test passes and the factorisation meets no non-positive pivot)
 pub open spec fn solved_by_route(a: Seq<f64>, n: int, b: Seq<f64>, x: Seq<f64>) -> bool {
     (pd_test(a, n) && (exists|l: Seq<f64>| l.len() == n * n && #[trigger] chol_rows(a, l, n, n) && chol_zero(l, n, n, 0) && chol_solved(l, n, x, b)))
-    || ((!pd_test(a, n) || !no_bad_pivot(a, n)) && (exists|f: Seq<f64>, piv: Seq<i32>| f.len() == n * n && is_perm32(piv, n) && bounded(f, n, n) && #[trigger] lu_solved(f, n, piv, b, x)))
+    || ((!pd_test(a, n) || !no_bad_pivot(a, n)) && (exists|f: Seq<f64>, piv: Seq<i32>| f.len() == n * n && is_perm32(piv, n) && bounded(f, n, n) && factored(a, f, piv, n, n) && #[trigger] lu_solved(f, n, piv, b, x)))
 }
 '''
 UNWRAP_M = ('is_square(m).unwrap()', 'match is_square(m) { Ok(v_) => v_, Err(_) => ::core::panicking::panic("unwrap") }', 'R2b')
@@ -43,7 +44,7 @@ UNITS = [
 SOLVE_HINT_CHOL = ('({ proof { assert(chol_post(a@, chol, n as int)); } let x_ = cholesky_solve(&l, b); proof { assert(chol_rows(a@, l@, n as int, n as int)); assert(solved_by_route(a@, n as int, b@, x_@)); } x_ })')
 SOLVE_HINT_LU = ('({ let x_ = lu_solve(&lu, &piv, b); proof { '
                  'if pd_ { assert(chol_post(a@, chol, n as int)); } '
-                 'assert(is_perm32(piv@, n as int)); assert(bounded(lu@, n as int, n as int)); assert(lu_solved(lu@, n as int, piv@, b@, x_@)); assert(solved_by_route(a@, n as int, b@, x_@)); } x_ })')
+                 'assert(is_perm32(piv@, n as int)); assert(bounded(lu@, n as int, n as int)); assert(factored(a@, lu@, piv@, n as int, n as int)); assert(lu_solved(lu@, n as int, piv@, b@, x_@)); assert(solved_by_route(a@, n as int, b@, x_@)); } x_ })')
 solve = Fn(U + 'solve', ret='x', level='L1', valid='a@.len() == b@.len() * b@.len()', panics={1: 'REJECT'},
            requires=['C01.solve.machine:: 0 < b@.len() <= 0x7fff_ffff && a@.len() <= 0x7fff_ffff && b@.len() * b@.len() <= usize::MAX'],
            ensures=['C01.solve.valid:: a@.len() == b@.len() * b@.len()', 'C01.solve.len:: x@.len() == b@.len()',
@@ -52,7 +53,7 @@ solve = Fn(U + 'solve', ret='x', level='L1', valid='a@.len() == b@.len() * b@.le
                      ('cholesky_solve(&l, b)', SOLVE_HINT_CHOL, 'R31: result bound to a name for the proof hint'),
                      ('lu_solve(&lu, &piv, b)', SOLVE_HINT_LU, 'R31')],
            hints=[('let chol =', 'before', 'let ghost mut pd_ = false; proof { lemma_sq_unique(n as int, a@.len() as int); }')])
-UNITS.append(Unit('C01_solve', ('C01', 'C11'), [solve], use=[c01.is_square, is_pd, t.try_chol, t.chol_solve, c01.lu, t.lu_solve], types=core.TYPES, type_spec=core.TYPE_SPEC,
+UNITS.append(Unit('C01_solve', ('C01', 'C11'), [solve], use=[c01.is_square, is_pd, t.try_chol, t.chol_solve, rec.lu_full, t.lu_solve], types=core.TYPES, type_spec=core.TYPE_SPEC,
                   spec=SPEC, preludes=PRE, broadcast=BC, level='L1', rlimit=100,
                   notes='solve: size mismatch rejected; the Cholesky route is taken exactly when the symmetry / positive-diagonal test passes and no pivot is non-positive, and then the '
                         'result satisfies L L^T = A, L y = b, L^T x = y; otherwise the result satisfies the pivoted-LU solve equations'))
@@ -136,7 +137,7 @@ solve_sys = Fn(U + 'solve_sys', ret='x', level='L1', valid=SYSV, panics={1: 'REJ
                         'C01.solve_sys.columns:: forall|n: int| 0 < n && n * n == a@.len() ==> #[trigger] sys_solved(a@, n, b@, x@, (b@.len() as int) / n, (b@.len() as int) / n)'],
                pre_body='let ghost b0 = b@;',
                loops={1: {'invariant': SYS_INV + ['chol_post(a@, chol, n as int)', 'chol == Some(l)', 'pd_test(a@, n as int)'], 'body_ghost': 'let ghost pre_s = solutions@;', 'body_start': SYS_BODY_START, 'body_end': SYS_BODY_END},
-                      2: {'invariant': SYS_INV + ['is_perm32(piv@, n as int)', 'bounded(lu@, n as int, n as int)', 'lu@.len() == n * n', '!pd_test(a@, n as int) || !no_bad_pivot(a@, n as int)'],
+                      2: {'invariant': SYS_INV + ['is_perm32(piv@, n as int)', 'bounded(lu@, n as int, n as int)', 'factored(a@, lu@, piv@, n as int, n as int)', 'lu@.len() == n * n', '!pd_test(a@, n as int) || !no_bad_pivot(a@, n as int)'],
                           'body_ghost': 'let ghost pre_s = solutions@;', 'body_start': SYS_BODY_START, 'body_end': SYS_BODY_END}},
                hints=[('let nsys =', 'before', 'proof { lemma_sq_unique(n as int, a@.len() as int); assert(n > 0) by { if n == 0 { assert(0 * 0 == 0); } } }'),
                       ('let mut solutions =', 'before', 'let ghost mut pd_ = false; proof { lemma_mul_div(n as int, nsys as int); assert(nsys * n == n * nsys) by(nonlinear_arith); }'),
@@ -149,7 +150,7 @@ solve_sys = Fn(U + 'solve_sys', ret='x', level='L1', valid=SYSV, panics={1: 'REJ
                        '{ lemma_idx(q, s, n as int, nsys as int); lemma_idx(s, q, nsys as int, n as int); assert(at2(solutions@, n as int, s, q) == at2(r_@, nsys as int, q, s)); } '
                        'assert(colv(r_@, n as int, nsys as int, s) =~= solutions@.subrange(s * n, (s + 1) * n)); } '
                        'assert(sys_solved(a@, n as int, b0, r_@, nsys as int, nsys as int)); } r_ })')])
-UNITS.append(Unit('C01_solve_sys', ('C01', 'C11'), [solve_sys], use=[c01.is_square, c15.is_matrix, is_pd, t.try_chol, t.chol_solve, c01.lu, t.lu_solve, r2c, c2r] + core.core_stubs(),
+UNITS.append(Unit('C01_solve_sys', ('C01', 'C11'), [solve_sys], use=[c01.is_square, c15.is_matrix, is_pd, t.try_chol, t.chol_solve, rec.lu_full, t.lu_solve, r2c, c2r] + core.core_stubs(),
                   types=core.TYPES, type_spec=core.TYPE_SPEC, spec=SPEC + SYS_SPEC, preludes=PRE, broadcast=BC, level='L1', rlimit=200,
                   notes='solve_sys: column c of the result solves the system with column c of the right-hand side (row-major <-> column-major round trip), by the same route as solve; '
                         'shape mismatches rejected'))
